@@ -79,12 +79,6 @@ Fixpoint imap_set {B} (k : str) (v : B) (l : list (str * B)) : list (str * B) :=
   | [] => [(k, v)]
   | (k', v') :: r => if str_eqb k k' then (k', v) :: r else (k', v') :: imap_set k v r
   end.
-(** [HashMap::remove] on a map without duplicate keys. *)
-Fixpoint remove_key {B} (k : str) (l : list (str * B)) : list (str * B) :=
-  match l with
-  | [] => []
-  | (k', v) :: r => if str_eqb k k' then r else (k', v) :: remove_key k r
-  end.
 Fixpoint mem (k : str) (l : list str) : bool :=
   match l with [] => false | x :: r => str_eqb k x || mem k r end.
 
@@ -517,24 +511,26 @@ Definition world_item_path (root : scope) (pkgs : pkgtab) (is_import : bool) (w 
 (** [world_include] *)
 Definition has_colon (n : str) : bool := existsb (fun c => c =? 58) n.
 
-(** [replace_name]: the (possibly renamed) name and the remaining replacements. *)
-Definition replace_name (target : list (str * kind)) (n : str) (repl : list (str * str))
-  : dres (str * list (str * str)) :=
-  if has_colon n then DOk (n, repl) else
-  let '(n1, repl1) := match assoc n repl with Some to => (to, remove_key n repl) | None => (n, repl) end in
-  if has n1 target then DErr EWorldIncludeConflict else DOk (n1, repl1).
+(** [replace_name]: the (possibly renamed) name and the set of replacements used so far.  A replacement
+    applies to every item with that name, on the import side and on the export side alike (the map is
+    only read; [used] is the [HashSet] of the [from] names that matched). *)
+Definition replace_name (target : list (str * kind)) (n : str) (repl : list (str * str)) (used : list str)
+  : dres (str * list str) :=
+  if has_colon n then DOk (n, used) else
+  let '(n1, used1) := match assoc n repl with Some to => (to, n :: used) | None => (n, used) end in
+  if has n1 target then DErr EWorldIncludeConflict else DOk (n1, used1).
 
 (** [entry(name).or_insert(item)] *)
 Definition or_insert {B} (k : str) (v : B) (l : list (str * B)) : list (str * B) :=
   if has k l then l else l ++ [(k, v)].
 
-Fixpoint include_go (target : list (str * kind)) (repl : list (str * str)) (src : list (str * kind))
-  : dres (list (str * kind) * list (str * str)) :=
+Fixpoint include_go (target : list (str * kind)) (repl : list (str * str)) (used : list str) (src : list (str * kind))
+  : dres (list (str * kind) * list str) :=
   match src with
-  | [] => DOk (target, repl)
+  | [] => DOk (target, used)
   | (n, k) :: rest =>
-    do (n1, repl1) <- replace_name target n repl ;;
-    include_go (or_insert n1 k target) repl1 rest
+    do (n1, used1) <- replace_name target n repl used ;;
+    include_go (or_insert n1 k target) repl used1 rest
   end.
 
 Fixpoint repl_go (acc : list (str * str)) (items : list Ast.include_item) : dres (list (str * str)) :=
@@ -557,9 +553,10 @@ Definition world_include (root : scope) (pkgs : pkgtab) (w : wst) (r : Ast.world
     match get_world (w_types w) x with
     | None => DPanic 12
     | Some other =>
-      do (imps, repl1) <- include_go (w_imp w) repl (w_imports other) ;;
-      do (exps, repl2) <- include_go (w_exp w) repl1 (w_exports other) ;;
-      if existsb (fun it => has (name_of (Ast.ii_from it)) repl2) items then DErr EMissingWorldInclude
+      do (imps, used1) <- include_go (w_imp w) repl [] (w_imports other) ;;
+      do (exps, used2) <- include_go (w_exp w) repl used1 (w_exports other) ;;
+      (* the first [with] item, in source order, that was never used *)
+      if existsb (fun it => negb (mem (name_of (Ast.ii_from it)) used2)) items then DErr EMissingWorldInclude
       else DOk (mkwst (mkloc (l_cur (w_loc w)) (l_uses (w_loc w)) imps (w_types w)) exps)
     end
   | _ => DErr ENotWorld
